@@ -1,7 +1,7 @@
 (** C02 — panic-freedom lemmas for Model/Panics.v and for the composed request path. *)
 From Coq Require Import ZifyBool ZifyNat ZifyN.
 From KV Require Import Bytes RustInt RustStd RustStdProofs Panics.
-From KV Require PathSan PathSanProofs Range RangeProofs RangeConn RangeConnProofs Http1Read Hosts HostsProofs Negotiate Cors.
+From KV Require PathSan PathSanProofs Range RangeProofs RangeConn RangeConnProofs Http1Read Hosts HostsProofs Negotiate Cors CacheControl.
 Open Scope N_scope.
 
 (** * [binary_search_by] stays inside the slice *)
@@ -495,3 +495,59 @@ Proof.
   - exfalso. eapply read_request_no_panic; eassumption.
 Qed.
 End Reader.
+
+(** * The request path *)
+
+Lemma sanitize_path_no_panic p : PathSan.sanitize_path p <> Panic.
+Proof. destruct (PathSanProofs.sanitize_path_total p) as [-> | ->]; discriminate. Qed.
+
+Lemma choose_host_no_panic ops c sni hh :
+  Hosts.build ops = Ok c -> Hosts.choose_host Hosts.V1 c sni hh <> Panic.
+Proof.
+  intros Hb. destruct (HostsProofs.choose_host_reference ops c sni hh Hb) as (ch & -> & _). discriminate.
+Qed.
+
+Lemma conn_step_no_panic checked caching pg cache q :
+  RangeConn.page_fits pg -> RangeConn.cache_ok pg cache ->
+  fst (RangeConn.conn_step checked caching pg cache q) <> Panic.
+Proof.
+  intros Hf Hc. destruct (RangeConnProofs.conn_step_spec checked caching pg cache q Hf Hc) as [-> _]. discriminate.
+Qed.
+
+Lemma request_path_no_panic grow parse_q checked mode https ops c dh max_len limit public deny caching pg cache stream sched :
+  Hosts.build ops = Ok c -> RangeConn.page_fits pg -> RangeConn.cache_ok pg cache ->
+  request_path grow parse_q checked mode https c dh max_len limit public deny caching pg cache stream sched <> Panic.
+Proof.
+  intros Hb Hf Hc. unfold request_path.
+  destruct (Http1Read.serve grow mode https dh max_len limit stream sched) as [sv|e|] eqn:Es; try discriminate.
+  2:{ exfalso. eapply Reader.serve_no_panic; eassumption. }
+  destruct (Hosts.choose_host Hosts.V1 c None _) as [[|h]|e|] eqn:Eh; try discriminate.
+  2:{ exfalso. eapply choose_host_no_panic; eassumption. }
+  destruct (PathSan.sanitize_path _) as [[]|e|] eqn:Ep; try discriminate.
+  2:{ exfalso. eapply sanitize_path_no_panic; eassumption. }
+  destruct (negb _); [discriminate|].
+  rewrite pq_path_ok. cbn [obind].
+  destruct (pq_query_ok (Http1Read.q_path (Http1Read.sv_request sv)) (Http1Read.q_query (Http1Read.sv_request sv))) as [r ->].
+  cbn [obind].
+  destruct (PathSan.request_fs_path _ public _) as [fs|e|] eqn:Efs; cbn [obind]; try discriminate.
+  2:{ exfalso. eapply PathSanProofs.request_fs_path_no_panic; eassumption. }
+  assert (Hq : exists qs, match Http1Read.q_query (Http1Read.sv_request sv) with Some s => query s | None => Ok [] end = Ok qs).
+  { destruct (Http1Read.q_query _) as [s|]; [apply query_ok|eauto]. }
+  destruct Hq as [qs ->]. cbn [obind].
+  match goal with |- context [RangeConn.conn_step ?a ?b ?c ?d ?q] =>
+    pose proof (conn_step_no_panic a b c d q Hf Hc) as Hcs; destruct (RangeConn.conn_step a b c d q) as [o cache'] end.
+  cbn [fst] in Hcs. destruct o as [w|e|]; cbn [obind]; try discriminate. exfalso; apply Hcs; reflexivity.
+Qed.
+
+(** * [from_kvarn_cache_control] without overflow checks *)
+Lemma cc_kvarn_unchecked_no_panic h : CacheControl.from_kvarn_cache_control false h <> Panic.
+Proof.
+  unfold CacheControl.from_kvarn_cache_control. cbv zeta.
+  destruct (beq _ _); [discriminate|]. destruct (beq _ _); [discriminate|].
+  destruct (CacheControl.trim h) as [|first t]; [discriminate|].
+  destruct (rev (first :: t)) as [|last rev_init]; [discriminate|].
+  destruct (_ && _)%bool; [|discriminate].
+  destruct (parse_u32 _) as [i|]; [|discriminate].
+  destruct (last =? 115); [|destruct (last =? 109); [|destruct (last =? 104); [|destruct (last =? 100); [|discriminate]]]];
+    destruct (_ <=? u32_max); discriminate.
+Qed.
